@@ -39,6 +39,11 @@ structure WSpec where
   tokens : List Int := []            -- ledger: non-zero values currently owned by the world
   dropped : Bool := false
   pendingDestroyed : List Int := []  -- values destroyed during the running maintain (accounted at its end)
+  fault : Option Nat := none         -- C19: a destructor panic has been armed for the next operation
+  faulted : Bool := false            -- C19: some operation of this history was interrupted by a destructor panic
+  evSkip : Array Bool := Array.replicate numKinds false  -- event expectations unknown since the last fault
+  graveyard : List Int := []         -- every non-zero value destroyed so far
+  leaked : Nat := 0                  -- values neither held, returned nor destroyed after a fault (allowed by C19)
   deriving Repr
 
 namespace WSpec
@@ -211,7 +216,11 @@ def op (s : WSpec) (o : WOp) (r : WRes) : Except String WSpec :=
           let s := { s with log := s.log.push e }
           .ok (comps.foldl (fun s kv =>
             match s.comp? kv.1 with
-            | some m => ((s.setComp kv.1 (mset m e.id kv.2)).expect kv.1 [.inserted e.id]).addToken kv.2
+            | some m =>
+              -- a component can already be there only after an interrupted purge (C19) or when the
+              -- builder names a kind twice: then the insert overwrites (and the old value is dropped)
+              ((s.setComp kv.1 (mset m e.id kv.2)).expect kv.1
+                [if (mget m e.id).isSome then .modified e.id else .inserted e.id]).addToken kv.2
             | none => s) s))
      | _ => .error "C00 malformed result")
   -- reads ---------------------------------------------------------------------------------
@@ -221,6 +230,9 @@ def op (s : WSpec) (o : WOp) (r : WRes) : Except String WSpec :=
      | _, none => if res == .skip then .ok s else .error "C00 malformed result"
      | some m, some e =>
        let exp := if s.isLive e then mget m e.id else none
+       if (match res with | .opt (some v) => v != 0 && s.graveyard.contains v | _ => false) then
+         .error "C19 a lookup returned a value that has already been destroyed"
+       else
        if res == .opt exp then .ok s
        else .error (s.blame e "C04" ++ " get returned " ++ (match res with | .opt x => showOpt x | _ => "?") ++ " expected " ++ showOpt exp))
   | .has k h, res =>
@@ -272,6 +284,9 @@ def op (s : WSpec) (o : WOp) (r : WRes) : Except String WSpec :=
      | some _ =>
        (match res with
         | .events l =>
+          if (s.evSkip[k]?).getD false then
+            .ok { s with evq := s.evq.setIfInBounds k [], evSkip := s.evSkip.setIfInBounds k false }
+          else
           if l == (s.evq[k]?).getD [] then .ok { s with evq := s.evq.setIfInBounds k [] }
           else .error "C12 event stream differs from the expected insert/modify/remove events"
         | _ => .error "C00 malformed result"))
@@ -519,20 +534,82 @@ def op (s : WSpec) (o : WOp) (r : WRes) : Except String WSpec :=
 /-- Account for the values the implementation destroyed during a top-level op (ledger, C08).
     For `maintain` the accounting is deferred until its nested lines have been seen. -/
 def destroyed (s : WSpec) (vs : List Int) : Except String WSpec :=
+  let s := { s with graveyard := vs.filter (fun v => v != 0) ++ s.graveyard }
   if s.inMaintain then .ok { s with pendingDestroyed := s.pendingDestroyed ++ vs }
   else s.takeTokens vs "destroyed"
 
 /-- After `drop_world` nothing may still be owned (no leak). -/
 def checkLeak (s : WSpec) : Except String WSpec :=
+  let s := if s.dropped && s.faulted then { s with leaked := s.leaked + s.tokens.length, tokens := [] } else s
   if s.dropped && !s.tokens.isEmpty then
     .error ("C08 values never returned nor destroyed although the world was dropped: " ++ toString s.tokens)
   else .ok s
+
+/-! ### C19: operations interrupted by a panicking destructor -/
+
+/-- An operation for which a destructor panic was armed reported `panic`: its allocator part has
+    completed (kill / merge run before any component is destroyed); what happened to the storages
+    is re-read from the `dump` that follows. -/
+def faultedOp (s : WSpec) (o : WOp) : Except String WSpec :=
+  let s := { s with fault := none, faulted := true, evSkip := Array.replicate numKinds true,
+                    evq := Array.replicate numKinds [] }
+  let killEv := fun (es : List Entity) =>
+    let r := (EntSpec.killPrefix s.ent.live s.ent.pending es 0).2.2
+    match s.ent.step (.kill es r) with
+    | .ok ent' => Except.ok { s with ent := ent' }
+    | .error why => Except.error why
+  match o with
+  | .ins _ _ v => .ok (s.addToken v)
+  | .entry _ _ (.orInsert v _ _) => .ok (s.addToken v)
+  | .ent (.delNow h) =>
+    (match s.resolveH h with
+     | some e => killEv [e]
+     | none => .ok s)
+  | .ent (.delBatch hs) =>
+    (match resolveAll s.log hs with
+     | some es => killEv es
+     | none => .ok s)
+  | .ent .delAll =>
+    (match s.ent.step .deleteAll with
+     | .ok ent' => .ok { s with ent := ent' }
+     | .error why => .error why)
+  | .ent .merge =>
+    (match s.ent.step .merge with
+     | .ok ent' => .ok { s with ent := ent' }
+     | .error why => .error why)
+  | .dropWorld => .ok { s with comps := Array.replicate numKinds none, queue := [], dropped := true }
+  | _ => .ok s
+
+/-- The full content of every registered storage after a fault: no destroyed value may be visible;
+    the abstract maps are re-synchronised; values that are no longer anywhere are leaked (allowed). -/
+def dumpLine (s : WSpec) (d : List (Nat × List (Nat × Int))) : Except String WSpec :=
+  let vals := (d.map (fun kv => kv.2.map (·.2))).flatten
+  if vals.any (fun v => v != 0 && s.graveyard.contains v) then
+    .error "C19 a storage still exposes a value that has already been destroyed"
+  else if !s.faulted then
+    -- without a fault the dump must agree with the abstract maps
+    if d.all (fun kv => (s.comp? kv.1).map msorted == some kv.2) then .ok s
+    else .error "C04 storage content differs from the map"
+  else
+    let queued := (s.queue.map (fun a => match a with
+      | .ins _ _ v => [v] | .insAll _ items => items.map (·.2) | _ => [])).flatten
+    let keep := s.tokens.filter (fun v => vals.contains v || queued.contains v)
+    let s := d.foldl (fun s kv => s.setComp kv.1 kv.2) s
+    .ok { s with tokens := keep, leaked := s.leaked + (s.tokens.length - keep.length) }
+
+/-- After a faulted `drop_world` nothing is owned any more; what was not destroyed is leaked. -/
+def faultedLeak (s : WSpec) : WSpec :=
+  if s.dropped && s.faulted then { s with leaked := s.leaked + s.tokens.length, tokens := [] } else s
 
 /-- A top-level transcript line. -/
 def topLine (s : WSpec) (o : WOp) (r : WRes) : Except String WSpec :=
   match s.finishMaintain with
   | .error why => .error why
-  | .ok s => s.op o r
+  | .ok s =>
+    match s.fault, r with
+    | some _, .panic _ => s.faultedOp o
+    | some _, _ => ({ s with fault := none }).op o r
+    | none, _ => s.op o r
 
 /-- A nested line `in TAG op => res`: must belong to the script at the head of the queue. -/
 def nestedLine (s : WSpec) (tag : Nat) (o : WOp) (r : WRes) : Except String WSpec :=
